@@ -9,25 +9,29 @@ Cfg(ns, rsf, tcp, rna, c, lf, to, search, domain, ndots, usd) ==
     [ns |-> ns, rsf |-> rsf, tcp |-> tcp, rna |-> rna, cache |-> c, life |-> lf, tmo |-> to, qtype |-> "A",
      search |-> search, domain |-> domain, ndots |-> ndots, usd |-> usd]
 
-(* safety: every switch combination, 1-3 servers, one search domain; lifetime 1 s, timeout 1/2 s *)
-MCConfigsQuick ==
-    {Cfg(ns, rsf, tcp, rna, c, 16, 8, <<S1>>, Dom, -1, FALSE) :
-        ns \in 1..2, rsf \in BOOLEAN, tcp \in BOOLEAN, rna \in BOOLEAN, c \in {"none", "simple"}}
-MCConfigsThorough ==
-    {Cfg(ns, rsf, tcp, rna, c, 16, 8, <<S1>>, Dom, -1, FALSE) :
-        ns \in 1..3, rsf \in BOOLEAN, tcp \in BOOLEAN, rna \in BOOLEAN, c \in {"none", "simple"}}
-    \cup {Cfg(2, rsf, FALSE, TRUE, "lru", 40, 16, <<S1, S2>>, Dom, 2, TRUE) : rsf \in BOOLEAN}
-(* liveness: small *)
-MCConfigsLive ==
-    {Cfg(2, rsf, tcp, TRUE, c, 16, 8, <<S1>>, Dom, -1, FALSE) : rsf \in BOOLEAN, tcp \in BOOLEAN, c \in {"none", "simple"}}
+(* A: one resolution, no cache: every switch combination, 1-2 (thorough: 1-3) servers, one search
+      domain; lifetime 1 s, per-query timeout 1/2 s *)
+MCConfigsA == {Cfg(ns, rsf, tcp, rna, "none", 16, 8, <<S1>>, Dom, -1, FALSE) :
+                  ns \in 1..2, rsf \in BOOLEAN, tcp \in BOOLEAN, rna \in BOOLEAN}
+MCConfigsA3 == {Cfg(ns, rsf, tcp, rna, "none", 16, 8, <<S1>>, Dom, -1, FALSE) :
+                  ns \in 1..3, rsf \in BOOLEAN, tcp \in BOOLEAN, rna \in BOOLEAN}
+(* B: two resolutions sharing a cache *)
+MCConfigsB == {Cfg(1, FALSE, FALSE, rna, "simple", 16, 8, <<S1>>, Dom, -1, FALSE) : rna \in BOOLEAN}
+(* L: liveness *)
+MCConfigsL == {Cfg(2, TRUE, FALSE, TRUE, "none", 16, 8, <<S1>>, Dom, -1, FALSE)}
+MCConfigsL2 == {Cfg(2, rsf, tcp, TRUE, "none", 16, 8, <<S1>>, Dom, -1, FALSE) : rsf \in BOOLEAN, tcp \in BOOLEAN}
 
 MCRequests == {[qname |-> <<"www">>, search |-> "true", life |-> 0],
                [qname |-> <<"www", "s1", "">>, search |-> "none", life |-> 0]}
-MCRequestsLive == {[qname |-> <<"www">>, search |-> "true", life |-> 0]}
+MCRequests1 == {[qname |-> <<"www">>, search |-> "true", life |-> 0]}
 MCBackoff == <<2, 3, 6, 13, 26, 32>>     \* 0.1 s doubling, capped at 2 s, in 1/16 s ticks (rounded)
 
-MCOutcomes(q, qt) == OutSmall(q, qt) \cup {Exc("OSError"), Msg("REFUSED", <<>>, <<>>), Msg("NOERROR", <<>>, <<>>),
-                                            Msg("NOERROR", Loop(q, 1, <<5>>), <<>>)}
-MCAdvances(t, l) == {0, 1, t, l + 1, -8, -40}
-MCAdvancesLive(t, l) == {0, t, -40}
+MCOutcomesA(q, qt) == OutSmall(q, qt) \cup {Exc("OSError"), Msg("REFUSED", <<>>, <<>>), Msg("NOERROR", <<>>, <<>>),
+                                             Msg("NOERROR", Loop(q, 1, <<5>>), <<>>)}
+MCOutcomesB(q, qt) == {Exc("Timeout"), Exc("FormError")} \cup PosSmall(q, qt) \cup NoDataSmall(q, qt) \cup NxSmall(q, qt)
+                      \cup {Msg("NOERROR", Chain(q, qt, 0, <<5>>, 0), <<>>)}
+MCOutcomesL(q, qt) == {Exc("Timeout"), Exc("FormError"), Exc("Truncated"), Msg("SERVFAIL", <<>>, <<>>)} \cup NxSmall(q, qt)
+MCAdvancesL(t, l) == {0, t}
+MCAdvancesA(t, l) == {0, t, l + 1, -40}
+MCAdvancesB(t, l) == {0}
 =============================================================================
